@@ -59,6 +59,9 @@ type rCfg struct {
 	WaitUs      int64  `json:"wait_us"`
 	CancelUs    int64  `json:"cancel_us"` // 0 = never cancelled
 	SetupFail   bool   `json:"setup_fail"`
+	SetupMode   string `json:"setup_mode"`
+	StopDelayUs int64  `json:"stop_delay_us"` // the hook parks the pool's stop goroutine this long at tp.stop.flagged
+	Light       bool   `json:"light"`         // contention runs: bodies only record their id lock-free; no end/cleanup events
 	Blockers    int    `json:"blockers"`
 	Ample       bool   `json:"ample"` // concurrency >= every tick and instant bodies: nothing can be pending at a tick
 	Rendezvous  bool   `json:"rendezvous"`
@@ -88,17 +91,18 @@ type rCase struct {
 }
 
 type rRec struct {
-	mu       sync.Mutex
-	t0       time.Time
-	ev       []rEv
-	returned atomic.Bool
-	afterS   atomic.Int64
-	afterE   atomic.Int64
-	afterP   atomic.Int64
-	stopG    map[int64]bool
-	envKeys  []string
-	stageIdx int
-	stageEnv []string
+	mu        sync.Mutex
+	t0        time.Time
+	ev        []rEv
+	returned  atomic.Bool
+	afterS    atomic.Int64
+	afterE    atomic.Int64
+	afterP    atomic.Int64
+	stopG     map[int64]bool
+	envKeys   []string
+	stageIdx  int
+	stageEnv  []string
+	stopDelay time.Duration
 }
 
 func (r *rRec) us() int64 { return time.Since(r.t0).Microseconds() }
@@ -132,6 +136,9 @@ func (r *rRec) hook(point string, who any, n int64) {
 		r.stopG[curGoid()] = true
 		r.ev = append(r.ev, rEv{K: "stopflag", C: r.us()})
 		r.mu.Unlock()
+		if r.stopDelay > 0 {
+			time.Sleep(r.stopDelay) // schedule control: the stop goroutine is slow between its flag and its drain
+		}
 	case "tp.send.locked":
 		// under the pool's cond mutex: the order of these events IS the order of publications
 		g := curGoid()
@@ -256,7 +263,8 @@ func leakedF1Goroutines() (int, string) {
 
 func runOne(c *ctx, rc rCase, m *metrics.Metrics) rTrace {
 	tr := rTrace{Cfg: rc.cfg}
-	rec := &rRec{t0: time.Now(), stopG: map[int64]bool{}, envKeys: rc.envKeys, stageEnv: rc.stageEnv}
+	rec := &rRec{t0: time.Now(), stopG: map[int64]bool{}, envKeys: rc.envKeys, stageEnv: rc.stageEnv,
+		stopDelay: time.Duration(rc.cfg.StopDelayUs) * time.Microsecond}
 	verifhook.Install(rec.hook)
 	defer verifhook.Install(nil)
 	var evalMu sync.Mutex
@@ -293,13 +301,31 @@ func runOne(c *ctx, rc rCase, m *metrics.Metrics) rTrace {
 	rvDone := make(chan struct{})
 	var rvOnce sync.Once
 	seed := c.seed
+	var lightN atomic.Int64
+	lightIDs := make([]int64, 0)
+	if rc.cfg.Light {
+		lightIDs = make([]int64, 2_000_000)
+	}
 	fn := func(t *f1testing.T) f1testing.RunFn {
 		t.Cleanup(func() { rec.add(rEv{K: "setupcleanup", A: live.Load(), C: rec.us()}) })
 		if rc.cfg.SetupFail {
 			rec.add(rEv{K: "setup", A: 0, C: rec.us()})
-			t.FailNow()
+			failWith(t, rc.cfg.SetupMode)
+			return func(*f1testing.T) { rec.add(rEv{K: "start", A: -1, B: -1, C: rec.us()}) } // must never run
 		}
 		rec.add(rEv{K: "setup", A: 1, C: rec.us()})
+		if rc.cfg.Light {
+			return func(t *f1testing.T) {
+				id, _ := strconv.ParseInt(t.Iteration, 10, 64)
+				k := lightN.Add(1)
+				if int(k) <= len(lightIDs) {
+					lightIDs[k-1] = id
+				}
+				if rec.returned.Load() {
+					rec.afterS.Add(1)
+				}
+			}
+		}
 		return func(t *f1testing.T) {
 			id, _ := strconv.ParseInt(t.Iteration, 10, 64)
 			hv, ok := handles.Load(t)
@@ -344,6 +370,8 @@ func runOne(c *ctx, rc rCase, m *metrics.Metrics) rTrace {
 			}
 			if rc.cfg.Blockers > 0 && blocked.Add(1) <= int64(rc.cfg.Blockers) {
 				<-release
+			} else if os.Getenv("VERIF_FAST") != "" {
+				time.Sleep(200 * time.Microsecond)
 			} else if rc.bodyMaxUs > 0 {
 				time.Sleep(time.Duration((id*7919+seed*31)%int64(rc.bodyMaxUs)) * time.Microsecond)
 			}
@@ -420,6 +448,22 @@ func runOne(c *ctx, rc rCase, m *metrics.Metrics) rTrace {
 			close(release)
 		}
 		return tr
+	}
+	if rc.cfg.Light {
+		n := int(lightN.Load())
+		if n > len(lightIDs) {
+			n = len(lightIDs)
+		}
+		got := append([]int64{}, lightIDs[:n]...)
+		sort.Slice(got, func(a, b int) bool { return got[a] < got[b] })
+		for k := 0; k < n; {
+			j := k
+			for j+1 < n && got[j+1] == got[j]+1 {
+				j++
+			}
+			rec.add(rEv{K: "idrange", A: got[k], B: got[j], D: int64(j - k + 1)})
+			k = j + 1
+		}
 	}
 	snap := res.Snapshot()
 	flags := ""
@@ -550,6 +594,15 @@ func buildCases(c *ctx) []rCase {
 			bodyMaxUs: 200, failEvery: 4, panicEvery: 5}
 		add(ru)
 	}
+	// --- many busy workers crossing the limit together (C03 ceiling / exact N under contention)
+	for k := 0; k < c.pick(60, 600); k++ {
+		lim := int64(300 + c.rng.Intn(900))
+		ru := rCase{cfg: rCfg{Name: "limit-race-users", Mode: "users", Conc: 32, MaxIter: lim, MaxDurUs: 5000 * ms, Light: true},
+			build: func(func(api.RateFunction) api.RateFunction) (*api.Trigger, error) {
+				return users.Rate().New(users.Rate().Flags)
+			}}
+		add(ru)
+	}
 	// --- ample concurrency + limit: nothing may be reported dropped (C02 limit-silent clause)
 	for k := 0; k < c.pick(2, 8); k++ {
 		lim := int64(5 + c.rng.Intn(40))
@@ -572,6 +625,13 @@ func buildCases(c *ctx) []rCase {
 		rc2 := constantCase("duration-random-dist", "15/200ms", 100*ms, 4, 0, 450*ms, "random")
 		rc2.bodyMaxUs = 30000
 		add(rc2)
+	}
+	// the pool's stop goroutine is slow: requests pending when triggering stopped must still be in the result
+	for _, lim := range []int64{0, 12} {
+		rc := constantCase("slow-stopper", "40/10ms", 10*ms, 1, lim, 120*ms, "none")
+		rc.bodyMaxUs = 3000
+		rc.cfg.StopDelayUs = 60 * ms
+		add(rc)
 	}
 	// staged / ramp / gaussian
 	add(rCase{cfg: rCfg{Name: "staged", Mode: "staged", RateMode: true, Conc: 6, MaxDurUs: 2000 * ms, IntervalUs: 20 * ms, Args: "0s:4,150ms:10,150ms:0"},
@@ -620,9 +680,12 @@ func buildCases(c *ctx) []rCase {
 				return users.Rate().New(users.Rate().Flags)
 			}, bodyMaxUs: 5000}
 		add(ru)
-		rs := constantCase("setup-fail", "5/10ms", 10*ms, 2, 0, 300*ms, "none")
-		rs.cfg.SetupFail = true
-		add(rs)
+		for _, mode := range []string{"failnow", "fail", "panic-error", "panic-string", "panic-runtime", "require"} {
+			rs := constantCase("setup-fail-"+mode, "5/10ms", 10*ms, 2, 0, 300*ms, "none")
+			rs.cfg.SetupFail = true
+			rs.cfg.SetupMode = mode
+			add(rs)
+		}
 		rb := constantCase("completion-timeout", "4/10ms", 10*ms, 4, 0, 150*ms, "none")
 		rb.cfg.Blockers = 2
 		rb.cfg.WaitUs = 200 * ms
@@ -661,7 +724,8 @@ func buildCases(c *ctx) []rCase {
 	// --- file mode: stages strictly sequential, environment per stage, users stage followed by another stage
 	fileCase := func(name, yaml string, nstages int, keys []string, stageEnv []string, maxDurUs int64, conc int, bodyUs int) {
 		yy := yaml
-		add(rCase{cfg: rCfg{Name: name, Mode: "file", Conc: conc, MaxDurUs: maxDurUs, FileStages: nstages, Args: strings.ReplaceAll(yy, "\n", "\\n")},
+		add(rCase{cfg: rCfg{Name: name, Mode: "file", Conc: conc, MaxDurUs: maxDurUs, FileStages: nstages, Light: strings.Contains(name, "stress"),
+			Args: strings.ReplaceAll(yy, "\n", "\\n")},
 			build: func(func(api.RateFunction) api.RateFunction) (*api.Trigger, error) {
 				p := filepath.Join(c.out, fmt.Sprintf("cfg-%d.yaml", time.Now().UnixNano()))
 				if err := os.WriteFile(p, []byte(yy), 0o600); err != nil {
@@ -699,10 +763,11 @@ stages:
   concurrency: 3
   parameters:
     VERIF_STAGE: two
+    VERIF_FAST: "1"
 - duration: 150ms
   rate: 2/20ms
-`, 3, []string{"VERIF_STAGE", "VERIF_A", "VERIF_DEF"},
-		[]string{"VERIF_STAGE=one;VERIF_A=a1", "VERIF_STAGE=two", "VERIF_DEF=dflt"}, 5000*ms, 6, 60000)
+`, 3, []string{"VERIF_STAGE", "VERIF_A", "VERIF_DEF", "VERIF_FAST"},
+		[]string{"VERIF_STAGE=one;VERIF_A=a1", "VERIF_STAGE=two;VERIF_FAST=1", "VERIF_DEF=dflt"}, 5000*ms, 6, 60000)
 	fileCase("file-cut-short", `scenario: scn
 limits:
   max-duration: 220ms
@@ -743,6 +808,33 @@ stages:
 - duration: 2s
   rate: 5/20ms
 `, 3, nil, []string{"", "", ""}, 5000*ms, 3, 2000)
+	// stage boundary under load with a run-wide limit: ids stay gapless and exactly N across pools
+	for k := 0; k < c.pick(4, 40); k++ {
+		lim := 300000 + c.rng.Intn(100000)
+		fileCase("file-stress-limit", fmt.Sprintf(`scenario: scn
+limits:
+  max-duration: 5s
+  concurrency: 16
+  max-iterations: %d
+  ignore-dropped: true
+default:
+  mode: constant
+  distribution: none
+  jitter: 0
+stages:
+- duration: %dms
+  rate: 4000/2ms
+- duration: 31ms
+  rate: 4000/2ms
+- duration: 33ms
+  rate: 3000/2ms
+- duration: 30ms
+  rate: 4000/2ms
+- duration: 3s
+  mode: users
+  concurrency: 8
+`, lim, 30+c.rng.Intn(20)), 5, []string{"VERIF_FAST"}, []string{"", "", "", "", ""}, 5000*ms, 16, 300)
+	}
 	return cases
 }
 
